@@ -234,13 +234,30 @@ def _reason(b):
     return None
 
 
+_STACK = []
+
+
+def _reused_stack():
+    """A user-defined parse stack whose middleware instances are used for every call of this process."""
+    if not _STACK:
+        from bibtexparser import middlewares as mw
+
+        _STACK.extend([mw.ResolveStringReferencesMiddleware(), mw.RemoveEnclosingMiddleware(), mw.NormalizeFieldKeys()])
+    return _STACK
+
+
 def check_text(text, acc, case=None, route="split"):
     case = case if case is not None else {"text": text}
     if route != "split":
         case = dict(case, route=route)
     acc.trace()
     try:
-        lib = Splitter(text).split() if route == "split" else bibtexparser.parse_string(text)
+        if route == "split":
+            lib = Splitter(text).split()
+        elif route == "parse_string":
+            lib = bibtexparser.parse_string(text)
+        else:
+            lib = bibtexparser.parse_string(text, parse_stack=_reused_stack())
     except Exception as e:  # C01's subject; here the trace is inconclusive
         acc.raised[type(e).__name__] += 1
         acc.case()
@@ -268,6 +285,7 @@ def big_texts(n, v):
 
 
 def run_shard(shard, tier, acc):
+    _STACK.clear()  # long-lived within a shard, not across shards (a worker process runs many shards)
     kind = shard[0]
     if kind == "seq":
         for toks in seq_iter(spaces.SIGMA_DOC, shard[1]):
@@ -283,6 +301,7 @@ def run_shard(shard, tier, acc):
             check_text("".join(toks), acc)
             if shard[2] <= 1:
                 check_text("".join(toks), acc, route="parse_string")
+                check_text("".join(toks), acc, route="parse_string_reused_stack")
         acc.count(f"deviation_k{shard[2]}_docs")
     elif kind == "big":
         for text in big_texts(shard[1], shard[2]):
@@ -290,6 +309,7 @@ def run_shard(shard, tier, acc):
             check_text(text, acc, case={"big": [shard[1], shard[2]], "text": text})
             # the blocks parse_string returns (default stack) must tile the source as well
             check_text(text, acc, case={"big": [shard[1], shard[2]], "text": text}, route="parse_string")
+            check_text(text, acc, case={"big": [shard[1], shard[2]], "text": text}, route="parse_string_reused_stack")
     elif kind == "layout":
         for text in layout_iter(shard[1]):
             check_text(text, acc)
